@@ -2,6 +2,7 @@
 from __future__ import annotations
 
 import asyncio
+import itertools
 import collections
 import os
 import random
@@ -100,3 +101,92 @@ def ob_b2(ctx: Ctx) -> Outcome:
 
 
 ob_b2.wants_all_cores = True
+
+
+# ---- B3: brace-for-angle repair of octave_write(lenient): one receipt per occurrence outside strings / comments / zones -------
+
+BRACE_SNIPPETS = ['let s = "origin"; let p = Point{x};', 'Point{x} then "q"', '"a" "b" N{q}', "N{q}", 'say "N{q}" ok', "x = {y}", 'a "unterminated N{q}', "'single' N{q}"]
+
+
+def brace_cases():
+    """(text, expected repairs [(before, after)], protected occurrences that must stay as written)"""
+    out = []
+    for sn in BRACE_SNIPPETS:
+        # the snippet inside a comment, inside a literal zone, inside a quoted string (escaped), and live as a value where applicable
+        out.append((f"===D===\nK::v\n// {sn}\nA::ATHENA{{w}}\n===END===\n", [("ATHENA{w}", "ATHENA<w>")], [sn]))
+        out.append((f"===D===\nK::v // {sn}\nA::1\n===END===\n", [], [sn]))
+        out.append((f"===D===\nZ::\n```\n{sn}\n```\nA::ATHENA{{w}}\n===END===\n", [("ATHENA{w}", "ATHENA<w>")], [sn]))
+        out.append((f"===D===\nB:\n  ```py\n  {sn}\n  more {sn}\n  ```\n  K::v\n===END===\n", [], [sn]))
+        esc = sn.replace("\\", "\\\\").replace('"', '\\"')
+        out.append((f'===D===\nS::"{esc}"\nA::B{{c}}\n===END===\n', [("B{c}", "B<c>")], [esc]))
+    out.append(("===D===\nA::X{a}\nL::[Y{b},Z{c}]\nB:\n  C::W{d}\n===END===\n", [("X{a}", "X<a>"), ("Y{b}", "Y<b>"), ("Z{c}", "Z<c>"), ("W{d}", "W<d>")], []))
+    out.append(("===D===\nA::X<a>\nL::[Y<b>]\n===END===\n", [], []))
+    out.append(('===D===\nS::"x" // c "y" N{q}\nT::"p" \n// "z" M{r}\nA::K{v}\n===END===\n', [("K{v}", "K<v>")], ['c "y" N{q}', '"z" M{r}']))
+    return out
+
+
+def replay_brace(idx: int):
+    text, want, keep = brace_cases()[idx]
+    p = _brace_one(text, want, keep)
+    return bool(p), p or "one receipt per live occurrence, protected text untouched"
+
+
+def _brace_one(text: str, want, keep) -> str | None:
+    from octave_mcp.mcp.write import WriteTool
+
+    d = tempfile.mkdtemp(prefix="vf-c07-")
+    try:
+        p = os.path.join(d, "b.oct.md")
+        r = asyncio.run(WriteTool().execute(target_path=p, content=text, lenient=True))
+        if r.get("status") != "success":
+            return f"octave_write(lenient) refuses {text!r}: {[e.get('code') for e in r.get('errors', [])]}"
+        got = sorted((c.get("before"), c.get("after")) for c in r.get("corrections", []) if c.get("code") == "W_REPAIR_CANDIDATE")
+        if got != sorted(want):
+            return f"brace repairs reported {got}, occurrences written outside strings / comments / zones {sorted(want)} | input {text!r}"
+        written = open(p, encoding="utf-8").read()
+        for k in keep:
+            if k not in written:
+                return f"protected text {k!r} (string / comment / literal zone) was rewritten: file {written!r} | input {text!r}"
+        return None
+    finally:
+        import shutil
+
+        shutil.rmtree(d, ignore_errors=True)
+
+
+def ob_b3(ctx: Ctx) -> Outcome:
+    cases = brace_cases()
+    wits = []
+    n = 0
+    for i, (text, want, keep) in enumerate(cases):
+        n += 1
+        p = _brace_one(text, want, keep)
+        if p:
+            wits.append(Witness(what=p[:700], input={"case": i}, key=f"brace|{'spurious' if 'reported' in p and len(want) < p.count('(') else 'mismatch'}|{i}", replay={"runner": "props.C07_b:replay_brace", "args": {"idx": i}}, confirmed=True))
+    # model documents with brace sites through the tool (the readers refuse braces; only the lenient writer repairs them)
+    docs_cfg = _CFG.get("docs") or (2, 2, ctx.seed, 1500)
+    docs = docs_b.docs(*docs_cfg)
+    rng = random.Random(ctx.seed)
+    tried = 0
+    for idx in range(0, len(docs), 7):
+        m = docs[idx]
+        if not any(s.kind == "brace" for s in M.lenient_sites(m)):
+            continue
+        if docs_b.features(m) & docs_b.KNOWN_FEATURES:
+            continue
+        tried += 1
+        for t, inj in itertools.islice(M.render_all_lenient(m, 6, rng, exclude_kinds=frozenset()), 6):
+            braces = [(r.original_text, r.replacement_text) for r in inj if r.kind == "brace_annotation"]
+            if not braces:
+                continue
+            n += 1
+            want = list(braces)
+            p = _brace_one(t, want, [])
+            if p and "refuses" not in p:
+                wits.append(Witness(what=p[:700], input={"doc_index": idx}, key=f"brace|model|{idx}", confirmed=True))
+        if tried >= (200 if ctx.thorough else 40):
+            break
+    extra = dict(bound=f"{len(cases)} hand-built documents: {len(BRACE_SNIPPETS)} snippets (quoted string before / after a NAME{{q}} form, unterminated quote, single quotes, bare braces) inside a full-line comment, a trailing comment, a literal zone (top-level and indented), a quoted string, plus live occurrences in values / lists / blocks; {tried} model documents with brace sites in up to 6 renderings; octave_write(lenient): W_REPAIR_CANDIDATE receipts == live occurrences, protected text kept in the written file", evaluations=n, distinct_nontrivial=n, rule="a case is one document through octave_write(lenient)")
+    if wits:
+        return Outcome.refuted("real octave_write(lenient)", wits[:12], **extra)
+    return Outcome.ok("real octave_write(lenient)", **extra)
